@@ -858,6 +858,24 @@ class Folder:
             args = [self.ev(a, env) for a in n.args]
             kw = self._kwargs(n, env)
             return self.call(cl.fnode, args, kw, base_env=cl.env)
+        if self.symbolic and isinstance(f, ast.Attribute) and isinstance(f.value, ast.Name) and f.value.id == "itertools" and f.attr == "accumulate" and "itertools" not in env \
+                and 1 <= len(n.args) <= 2:
+            # running reduction of a sequence that folded to a Python list: [initial?, f(., s0), f(., s1), ...]
+            seq = self.ev(n.args[0], env)
+            kw = self._kwargs(n, env)
+            fn = self.ev(n.args[1], env) if len(n.args) > 1 else kw.get("func")
+            if isinstance(seq, (list, tuple)) and (fn is None or (isinstance(fn, Opaque) and fn.tag == "callable")):
+                out = []
+                acc = kw.get("initial")
+                if acc is not None:
+                    out.append(acc)
+                for x in seq:
+                    if acc is None:
+                        acc = x
+                    else:
+                        acc = Sym(fn.label, [acc, x]) if fn is not None else Sym("+", [acc, x])
+                    out.append(acc)
+                return out
         if isinstance(f, ast.Name) and f.id == "type" and "type" not in env and len(n.args) == 1 and not n.keywords:
             a0 = self.ev(n.args[0], env)
             if isinstance(a0, Obj) and "__type__" in a0.fields:
